@@ -902,11 +902,17 @@ class Interp:
             rowdeps = idx_row_deps(idx)
             deps = set(base.deps) | rowdeps
             shp = sh.ZERO
+            rowtag = None
+            if idx.kind == "tuple" and idx.data and idx.data[0].kind == "slice" and idx.data[0].data:
+                rowtag = f"rows.{idx.data[0].data}"
             if cols:
                 for c in cols:
                     atom = f"ppc.{base.data}.{c}"
                     deps.add(atom)
-                    shp = sh.add(shp, sh.ppc_shape(base.data, c, atom))
+                    cs = sh.ppc_shape(base.data, c, atom)
+                    if rowtag:
+                        cs = sh.mul(cs, sh.S(sh.Mono(facs=[rowtag])))
+                    shp = sh.add(shp, cs)
             else:
                 deps.add(f"ppc.{base.data}.*")
                 shp = sh.TOP
@@ -954,7 +960,11 @@ class Interp:
         for p in (node.lower, node.upper, node.step):
             if p is not None:
                 deps |= self.eval(p, fr).deps
-        return AV(frozenset(deps), "slice", None)
+        tag = None
+        if node.step is None and all(p is None or isinstance(p, ast.Name) for p in (node.lower, node.upper)) \
+                and (node.lower is not None or node.upper is not None):
+            tag = f"{node.lower.id if node.lower is not None else ''}:{node.upper.id if node.upper is not None else ''}"
+        return AV(frozenset(deps), "slice", tag)
 
     def e_Tuple(self, node, fr):
         return AV(E, "tuple", [self.eval(e, fr) for e in node.elts])
